@@ -580,23 +580,14 @@ theorem strLt_asymm (a b : List Char) (h : strLt a b = true) : strLt b a = false
     rw [strLt_irrefl] at this
     cases this
 
-/-- Both keys are ints, or both are strs. -/
-def sameKind : Key → Key → Bool
-  | .i _, .i _ => true
-  | .s _, .s _ => true
-  | _, _ => false
+theorem keyEqW_iff (a b : Key) : keyEqW a b = true ↔ a = b := by
+  cases a <;> cases b <;> simp [keyEqW]
 
-/-- At every common position the two paths have keys of the same kind. -/
-def compat : Path → Path → Bool
-  | a :: p, b :: q => sameKind a b && compat p q
-  | _, _ => true
-
-theorem keyEqW_refl (a : Key) : keyEqW a a = true := by
-  cases a <;> simp [keyEqW]
+theorem keyEqW_refl (a : Key) : keyEqW a a = true := (keyEqW_iff a a).mpr rfl
 
 theorem keyEqW_symm (a b : Key) : keyEqW a b = keyEqW b a := by
-  cases a <;> cases b <;> simp only [keyEqW] <;> rw [Bool.eq_iff_iff] <;>
-    simp only [beq_iff_eq] <;> exact eq_comm
+  rw [Bool.eq_iff_iff, keyEqW_iff, keyEqW_iff]
+  exact eq_comm
 
 theorem keyLtW_irrefl (a : Key) : keyLtW a a = false := by
   cases a <;> simp [keyLtW, strLt_irrefl]
@@ -604,35 +595,28 @@ theorem keyLtW_irrefl (a : Key) : keyLtW a a = false := by
 theorem keyLtW_asymm (a b : Key) (h : keyLtW a b = true) : keyLtW b a = false := by
   cases a <;> cases b <;> simp only [keyLtW] at h ⊢ <;> first
     | exact strLt_asymm _ _ h
+    | exact absurd h (by decide)
+    | rfl
     | (simp at h ⊢; omega)
 
-theorem keyEqW_iff_of_sameKind (a b : Key) (h : sameKind a b = true) : keyEqW a b = true ↔ a = b := by
-  cases a <;> cases b <;> simp [sameKind] at h <;> simp [keyEqW, keyStr]
+theorem keyLtW_trans (a b c : Key) (h1 : keyLtW a b = true) (h2 : keyLtW b c = true) : keyLtW a c = true := by
+  cases a <;> cases b <;> cases c <;> simp only [keyLtW] at h1 h2 ⊢ <;> first
+    | exact strLt_trans _ _ _ h1 h2
+    | exact absurd h2 (by decide)
+    | exact absurd h1 (by decide)
+    | rfl
+    | (simp only [decide_eq_true_eq] at h1 h2 ⊢; omega)
 
-theorem keyLtW_trans (a b c : Key) (hab : sameKind a b = true) (hbc : sameKind b c = true)
-    (h1 : keyLtW a b = true) (h2 : keyLtW b c = true) : keyLtW a c = true := by
-  cases a <;> cases b <;> simp [sameKind] at hab <;> cases c <;> simp [sameKind] at hbc
-  · simp only [keyLtW, keyStr] at h1 h2 ⊢
-    exact strLt_trans _ _ _ h1 h2
-  · simp only [keyLtW, decide_eq_true_eq] at h1 h2 ⊢
-    omega
-
-theorem keyLtW_total (a b : Key) (hab : sameKind a b = true) (hne : a ≠ b) :
-    keyLtW a b = true ∨ keyLtW b a = true := by
-  cases a <;> cases b <;> simp [sameKind] at hab
-  · simp only [keyLtW, keyStr]
+theorem keyLtW_total (a b : Key) (hne : a ≠ b) : keyLtW a b = true ∨ keyLtW b a = true := by
+  cases a <;> cases b
+  · simp only [keyLtW]
     exact strLt_total _ _ (fun e => hne (by rw [e]))
+  · right; rfl
+  · left; rfl
   · rename_i x y
     simp only [keyLtW, decide_eq_true_eq]
     have : ¬ x = y := fun e => hne (by rw [e])
     omega
-
-theorem sameKind_symm (a b : Key) : sameKind a b = sameKind b a := by
-  cases a <;> cases b <;> rfl
-
-theorem sameKind_trans (a b c : Key) (h1 : sameKind a b = true) (h2 : sameKind b c = true) :
-    sameKind a c = true := by
-  cases a <;> cases b <;> simp [sameKind] at h1 <;> cases c <;> simp [sameKind] at h2 <;> rfl
 
 theorem pathLt_irrefl (p : Path) : pathLt p p = false := by
   induction p with
@@ -659,75 +643,70 @@ theorem pathLt_prefix (p : Path) (k : Key) (r : Path) : pathLt p (p ++ k :: r) =
   | nil => rfl
   | cons a p ih => simp [pathLt, keyEqW_refl, ih]
 
-theorem pathLt_trans : ∀ p q r : Path, compat p q = true → compat q r = true →
-    pathLt p q = true → pathLt q r = true → pathLt p r = true := by
+theorem pathLt_trans : ∀ p q r : Path, pathLt p q = true → pathLt q r = true → pathLt p r = true := by
   intro p
   induction p with
   | nil =>
-    intro q r _ _ h1 h2
+    intro q r h1 h2
     cases q with
     | nil => simp [pathLt] at h1
     | cons b q => cases r with
       | nil => simp [pathLt] at h2
       | cons c r => rfl
   | cons a p ih =>
-    intro q r c1 c2 h1 h2
+    intro q r h1 h2
     cases q with
     | nil => simp [pathLt] at h1
     | cons b q =>
       cases r with
       | nil => simp [pathLt] at h2
       | cons c r =>
-        simp only [compat, Bool.and_eq_true] at c1 c2
-        have kac := sameKind_trans a b c c1.1 c2.1
         simp only [pathLt] at h1 h2 ⊢
         by_cases eab : keyEqW a b = true
-        · have hab := (keyEqW_iff_of_sameKind a b c1.1).mp eab
+        · have hab := (keyEqW_iff a b).mp eab
           subst hab
           simp only [eab, if_true] at h1
           by_cases eac : keyEqW a c = true
           · simp only [eac, if_true] at h2 ⊢
-            exact ih q r c1.2 c2.2 h1 h2
+            exact ih q r h1 h2
           · simp only [eac] at h2 ⊢
             exact h2
         · simp only [eab] at h1
           by_cases ebc : keyEqW b c = true
-          · have hbc := (keyEqW_iff_of_sameKind b c c2.1).mp ebc
+          · have hbc := (keyEqW_iff b c).mp ebc
             subst hbc
             simp only [eab]
             exact h1
           · simp only [ebc] at h2
-            have hlt := keyLtW_trans a b c c1.1 c2.1 h1 h2
+            have hlt := keyLtW_trans a b c h1 h2
             have eac : ¬ keyEqW a c = true := by
               intro e
-              have := (keyEqW_iff_of_sameKind a c kac).mp e
+              have := (keyEqW_iff a c).mp e
               subst this
               rw [keyLtW_asymm a b h1] at h2
               cases h2
             simp only [eac]
             exact hlt
 
-theorem pathLt_total : ∀ p q : Path, compat p q = true → p ≠ q →
-    pathLt p q = true ∨ pathLt q p = true := by
+theorem pathLt_total : ∀ p q : Path, p ≠ q → pathLt p q = true ∨ pathLt q p = true := by
   intro p
   induction p with
-  | nil => intro q _ h; cases q with
+  | nil => intro q h; cases q with
     | nil => exact absurd rfl h
     | cons b q => left; rfl
   | cons a p ih =>
-    intro q c h
+    intro q h
     cases q with
     | nil => right; rfl
     | cons b q =>
-      simp only [compat, Bool.and_eq_true] at c
       simp only [pathLt]
       rw [keyEqW_symm b a]
       by_cases eab : keyEqW a b = true
-      · have hab := (keyEqW_iff_of_sameKind a b c.1).mp eab
+      · have hab := (keyEqW_iff a b).mp eab
         subst hab
         simp only [eab, if_true]
-        exact ih q c.2 (fun e => h (by rw [e]))
+        exact ih q (fun e => h (by rw [e]))
       · simp only [eab]
-        exact keyLtW_total a b c.1 (fun e => eab (by rw [e]; exact keyEqW_refl b))
+        exact keyLtW_total a b (fun e => eab (by rw [e]; exact keyEqW_refl b))
 
 end Pg.C10
